@@ -41,9 +41,19 @@ CP_LS = {"X": ONE, "W": (-1, 0), "F": (1, -1)}
 TR_LS = {"X": ONE, "F": (1, -1)}
 
 
-def _randn_tucker(c):
+def _randn_tucker(c, ev=None, env=None):
     # TuckerRegressor: the core is drawn with randn(*self.weight_ranks), the factors with randn(rows, cols)
-    return Deg({"G": ONE}) if any(isinstance(a, ast.Starred) for a in c.args) else Deg({"F": ONE})
+    # (a starred tuple -- `randn(*(rows, cols))`, or a local bound to such a display -- is the two-argument
+    # call written through a helper)
+    def explicit_pair(a):
+        if isinstance(a.value, (ast.Tuple, ast.List)):
+            return True
+        if ev is not None and isinstance(a.value, ast.Name):
+            v = ev.ev(a.value, env)
+            return isinstance(v, tuple) and v and v[0] == "tuple"
+        return False
+
+    return Deg({"G": ONE}) if any(isinstance(a, ast.Starred) and not explicit_pair(a) for a in c.args) else Deg({"F": ONE})
 
 
 SPECS = [
